@@ -28,6 +28,21 @@ func calculateNextQuota(
 	clientCount int,
 	condition *proxyv1alpha1.RateLimitCondition,
 ) proxyv1alpha1.RateLimitItemConfiguration {
+	return calculateNextQuotaOf(upstreamTotal, upstreamUsed, flowControlConfig, flowControlStatus, clientCount, condition, true)
+}
+
+// calculateNextQuotaOf is calculateNextQuota for an instance that may not be on record: the quota such an instance
+// still holds (flowControlConfig) is not part of the allocated sum (upstreamUsed) and is counted in here, in
+// float64 like the rest of the arithmetic - as an int32 the sum could wrap around.
+func calculateNextQuotaOf(
+	upstreamTotal proxyv1alpha1.RateLimitItemConfiguration,
+	upstreamUsed proxyv1alpha1.RateLimitItemStatus,
+	flowControlConfig proxyv1alpha1.RateLimitItemConfiguration,
+	flowControlStatus proxyv1alpha1.RateLimitItemStatus,
+	clientCount int,
+	condition *proxyv1alpha1.RateLimitCondition,
+	onRecord bool,
+) proxyv1alpha1.RateLimitItemConfiguration {
 	newCondition := flowControlConfig.DeepCopy()
 	if flowControlConfig.Strategy == proxyv1alpha1.GlobalCountLimit {
 		newCondition.MaxRequestsInflight = upstreamTotal.MaxRequestsInflight
@@ -42,6 +57,9 @@ func calculateNextQuota(
 
 	total := float64(getLimitQuota(upstreamTotal.LimitItemDetail, flowControlType))
 	allocated := float64(getLimitQuota(upstreamUsed.LimitItemDetail, flowControlType))
+	if !onRecord {
+		allocated += current
+	}
 	remaining := total - allocated
 
 	var next, burst float64
